@@ -112,6 +112,14 @@ def gen_cases(rng, tier):
       c = _wrap(pos, _p(1, [dict(b) for b in beh], opts))
       c['pos'] = 'timeout/' + pos
       cases.append(c)
+  # the body returned, its thread is still busy with its finish handler when the deadline passes: not a timeout
+  for raw, opts in (('cont', {}), ('failcont', {}), ('rep', {'limit': 2}), ('cont', {'rot': True}), ('stop', {}), ('skip', {})):
+    for pos in (['first', 'teardown', 'subtest'] if tier == 'thorough' else ['first', 'teardown']):
+      ph = _p(1, [{'raw': raw}, {'raw': 'cont'}], opts)
+      ph['linger'] = True
+      c = _wrap(pos, ph)
+      c['pos'] = 'lingering-thread/' + pos
+      cases.append(c)
   # behaviour sequences x option sets x run_if scripts
   n = 1500 if tier == 'quick' else 20000
   for i in range(n):
